@@ -161,5 +161,9 @@ def start (c : Cfg) (fmg : Bool) (fmgKind : Kind) (fmgIters : Nat) (extrapolated
 def cycleL (c : Cfg) (k : Kind) (extrapolated fgs : Bool) (d : Ref → Option (Array α)) : Option (Array α) :=
   (execL (ops H) d (cycleAt c k extrapolated fgs 0) []).get d (0, Buf.sol)
 
+/-- the start-up with the strict memory (what the driver runs): the level-0 solution afterwards -/
+def startL (c : Cfg) (fmg : Bool) (fmgKind : Kind) (fmgIters : Nat) (extrapolated fgs : Bool) (d : Ref → Option (Array α)) : Option (Array α) :=
+  (execL (ops H) d (initSolution c fmg fmgKind fmgIters extrapolated fgs (c.levels - 1)) []).get d (0, Buf.sol)
+
 end
 end Concrete
